@@ -129,6 +129,9 @@ impl Database {
         let had_frames = current_offset > 0;
 
         if had_frames {
+            file_manager
+                .sync_all()
+                .wrap_err("failed to sync table files before truncating WAL")?;
             wal.truncate()?;
         }
 
